@@ -73,6 +73,12 @@ impl Params {
         let mem = mem / 1024;
         let mem = u32::try_from(mem).map_err(|_| PasetoError::InvalidKey)?;
 
+        // argon2 needs at least 8 KiB per lane; check it here because the argon2 crate
+        // computes `8 * p_cost` with unchecked arithmetic (panics with overflow checks on)
+        if self.para.get().checked_mul(8).is_none_or(|min| mem < min) {
+            return Err(PasetoError::InvalidKey);
+        }
+
         let params = argon2::ParamsBuilder::new()
             .m_cost(mem)
             .p_cost(self.para.get())
